@@ -503,7 +503,7 @@ func c03CombineCorr(ctx *Ctx, n int) error {
 }
 
 func runC03(ctx *Ctx) error {
-	ctx.Res.Rule = "CORR: every string over {'{','}','*','.',';','?','a','/'} up to length 5 (thorough 7) and seeded templates through OrderedParamsFromUri / the seven SwaggerUriTo*Uri / ReplacePathParamsWithStr vs the Lean scanner; SortParamsByPath on shuffled, missing, extra declarations; CombineOperationParameters on seeded path-item / operation declaration lists vs Combine.combine. RUN: seeded documents (4-12 path templates, 0-4 variables, static/templated siblings, shared prefixes, nine methods, path-level/operation-level declarations in every order) x requests (matching with plain/escaped/non-ASCII values, wrong method, extra/missing segment, unknown static) x 7 frameworks x with/without base URL; observed handler and arguments vs the statement and vs Lean route; non-trivial = RUN requests and templates containing a brace"
+	ctx.Res.Rule = "CORR: every string over {'{','}','*','.',';','?','a','/'} up to length 5 (thorough 7) and seeded templates through OrderedParamsFromUri / the seven SwaggerUriTo*Uri / ReplacePathParamsWithStr vs the Lean scanner; SortParamsByPath on shuffled, missing, extra declarations; CombineOperationParameters on seeded path-item / operation declaration lists vs Combine.combine. RUN: seeded documents (4-12 path templates, 0-4 variables, static/templated siblings, shared prefixes, nine methods, path-level/operation-level declarations in every order) x requests (matching with plain/escaped/non-ASCII values, wrong method, extra/missing segment, unknown static) x 7 frameworks x with/without base URL x the entry points of the generated package (HandlerWithOptions / HandlerFromMux / HandlerFromMuxWithBaseURL / Handler, RegisterHandlers / …WithBaseURL / …WithOptions); observed handler and arguments vs the statement and vs Lean route; non-trivial = RUN requests and templates containing a brace"
 	if err := c03CorrTemplates(ctx); err != nil {
 		return err
 	}
@@ -606,7 +606,7 @@ func runC03(ctx *Ctx) error {
 						esc = append(esc, url.PathEscape(s))
 					}
 					u := "http://h" + base + "/" + strings.Join(esc, "/")
-					resp, err := p.Call(J{"do": "serve", "req": J{"method": rq.method, "url": u}, "opt": J{"stop": -1, "sstop": -1, "base": base}})
+					resp, err := p.Call(J{"do": "serve", "req": J{"method": rq.method, "url": u}, "opt": J{"stop": -1, "sstop": -1, "base": base, "entry": (len(rq.segs) + len(rq.method)) % 2, "ctype": rq.kind}})
 					if err != nil {
 						return err
 					}
